@@ -341,6 +341,211 @@ pub fn check(c: &Case, st: &mut Stats) -> CheckResult {
     Ok(())
 }
 
+// ------------------------------------------------------------------ graphs of stock nodes: functional evaluation
+
+/// A loop-free graph built from the library's own nodes (sources: closures writing known blocks, or signal nodes over
+/// finite signals; inner nodes: Sum, SumBuffers, Pass) with arbitrary channel counts, evaluated by an independent
+/// reference over several process calls.  Values sit on the grid k/64, so sums are exact whatever the order.
+#[derive(Clone, Debug, Serialize, Deserialize)]
+pub struct StockCase {
+    /// per source: (number of buffers, Some(l) = a signal node over a signal of l frames / None = a closure node)
+    pub sources: Vec<(usize, Option<usize>)>,
+    /// inner nodes in topological order: (kind 0 Sum | 1 SumBuffers | 2 Pass, number of buffers, inputs = indices into
+    /// sources ++ earlier inner nodes; parallel edges allowed; Pass uses at most its first listed input)
+    pub nodes: Vec<(u8, usize, Vec<usize>)>,
+    pub calls: usize,
+    pub stable: bool,
+    pub salt: u32,
+}
+
+fn stock_val(salt: u32, src: usize, b: usize, t: usize) -> f32 {
+    ((((src * 31 + b * 17 + t * 7 + salt as usize) % 129) as i32) - 64) as f32 / 64.0
+}
+
+pub fn check_stock(c: &StockCase, st: &mut Stats) -> CheckResult {
+    use dasp_graph::node::{Pass, Sum, SumBuffers};
+    use dasp_graph::BoxedNode;
+    use dasp_signal_reg::Signal as RegSignal;
+    const LEN: usize = Buffer::LEN;
+    const SENT: f32 = 555.0;
+    ensure!(!c.sources.is_empty() && !c.nodes.is_empty() && c.calls >= 1, "bad case: empty graph");
+    let ns = c.sources.len();
+    let salt = c.salt;
+    let mut g: StableGraph<NodeData<BoxedNode>, ()> = StableGraph::with_capacity(0, 0);
+    let mut plain: Graph<NodeData<BoxedNode>, ()> = Graph::with_capacity(0, 0);
+    let mut ids_s = Vec::new();
+    let mut ids_p = Vec::new();
+    macro_rules! add {
+        ($mk:expr, $nb:expr) => {{
+            if c.stable {
+                ids_s.push(g.add_node(NodeData::new($mk, vec![Buffer::from([SENT; LEN]); $nb])));
+            } else {
+                ids_p.push(plain.add_node(NodeData::new($mk, vec![Buffer::from([SENT; LEN]); $nb])));
+            }
+        }};
+    }
+    for (j, &(nb, sig)) in c.sources.iter().enumerate() {
+        ensure!(nb <= 4, "bad case: too many buffers");
+        match sig {
+            None => {
+                let mut t = 0usize;
+                let f: Box<dyn FnMut(&[Input], &mut [Buffer])> = Box::new(move |_i, o| {
+                    for (b, buf) in o.iter_mut().enumerate() {
+                        for i in 0..LEN {
+                            buf[i] = stock_val(salt, j, b, t + i);
+                        }
+                    }
+                    t += LEN;
+                });
+                add!(BoxedNode::new(f), nb);
+            }
+            Some(l) => {
+                let frames: Vec<[f32; 2]> = (0..l).map(|t| [stock_val(salt, j, 0, t), stock_val(salt, j, 1, t)]).collect();
+                let sig: Box<dyn RegSignal<Frame = [f32; 2]>> = Box::new(dasp_signal_reg::from_iter(frames));
+                add!(BoxedNode::new(sig), nb);
+            }
+        }
+    }
+    for (kind, nb, inputs) in &c.nodes {
+        ensure!(*nb <= 4, "bad case: too many buffers");
+        let idx_now = if c.stable { ids_s.len() } else { ids_p.len() };
+        ensure!(inputs.iter().all(|i| *i < idx_now), "bad case: input is not an earlier node");
+        match kind % 3 {
+            0 => add!(BoxedNode::new(Sum), *nb),
+            1 => add!(BoxedNode::new(SumBuffers), *nb),
+            _ => add!(BoxedNode::new(Pass), *nb),
+        }
+        for &i in inputs {
+            if c.stable {
+                g.add_edge(ids_s[i], ids_s[idx_now], ());
+            } else {
+                plain.add_edge(ids_p[i], ids_p[idx_now], ());
+            }
+        }
+    }
+    let total = ns + c.nodes.len();
+    // reference state: every node's buffers, carried across calls
+    let nbufs = |k: usize| if k < ns { c.sources[k].0 } else { c.nodes[k - ns].1 };
+    let mut state: Vec<Vec<Vec<f32>>> = (0..total).map(|k| vec![vec![SENT; LEN]; nbufs(k)]).collect();
+    let out = total - 1;
+    // upstream set of the output node
+    let mut up = vec![false; total];
+    let mut stack = vec![out];
+    while let Some(v) = stack.pop() {
+        if !up[v] {
+            up[v] = true;
+            if v >= ns {
+                for &i in &c.nodes[v - ns].2 {
+                    stack.push(i);
+                }
+            }
+        }
+    }
+    let mut sig_ended = false;
+    let mut mismatch = false;
+    let mut ps = Processor::with_capacity(1);
+    let mut pp = Processor::with_capacity(1);
+    for call in 0..c.calls {
+        if c.stable {
+            ps.process(&mut g, ids_s[out]);
+        } else {
+            pp.process(&mut plain, ids_p[out]);
+        }
+        for k in 0..total {
+            if !up[k] {
+                continue;
+            }
+            if k < ns {
+                let (nb, sig) = c.sources[k];
+                for b in 0..nb {
+                    for i in 0..LEN {
+                        let t = call * LEN + i;
+                        state[k][b][i] = match sig {
+                            None => stock_val(salt, k, b, t),
+                            // a signal node de-interleaves frames into the buffers it has; beyond the frame's channels: untouched
+                            Some(l) if b < 2 => {
+                                if t >= l {
+                                    sig_ended = true;
+                                    0.0
+                                } else {
+                                    stock_val(salt, k, b, t)
+                                }
+                            }
+                            Some(_) => state[k][b][i],
+                        };
+                    }
+                }
+            } else {
+                let (kind, nb, inputs) = &c.nodes[k - ns];
+                match kind % 3 {
+                    0 => {
+                        for ch in 0..*nb {
+                            for i in 0..LEN {
+                                state[k][ch][i] = inputs.iter().filter(|j| nbufs(**j) > ch).map(|j| state[*j][ch][i]).sum();
+                            }
+                        }
+                    }
+                    1 => {
+                        for i in 0..LEN {
+                            let s: f32 = inputs.iter().map(|j| (0..nbufs(*j)).map(|b| state[*j][b][i]).sum::<f32>()).sum();
+                            for ch in 0..*nb {
+                                state[k][ch][i] = s;
+                            }
+                        }
+                    }
+                    _ => {
+                        // which input the graph presents first is its business: with several inputs nothing is asserted
+                        // for this node's own buffers beyond "copy of one input" (see C16); here Pass gets at most one
+                        if let Some(&j) = inputs.first() {
+                            if nbufs(j) != *nb {
+                                mismatch = true;
+                            }
+                            for ch in 0..(*nb).min(nbufs(j)) {
+                                for i in 0..LEN {
+                                    state[k][ch][i] = state[j][ch][i];
+                                }
+                            }
+                        }
+                    }
+                }
+            }
+        }
+        for k in 0..total {
+            for b in 0..nbufs(k) {
+                let got: Vec<f32> = if c.stable { g[ids_s[k]].buffers[b].to_vec() } else { plain[ids_p[k]].buffers[b].to_vec() };
+                for i in 0..LEN {
+                    ensure!(
+                        got[i] == state[k][b][i],
+                        "call {}: node {} ({}) buffer {} sample {} = {}, the functional evaluation of the graph gives {}",
+                        call, k, if k < ns { "source".to_string() } else { ["Sum", "SumBuffers", "Pass"][(c.nodes[k - ns].0 % 3) as usize].to_string() }, b, i, got[i], state[k][b][i]
+                    );
+                }
+            }
+        }
+    }
+    st.nt(true);
+    st.class("graph of stock nodes");
+    st.class_if(sig_ended, "stock graph: a signal node's signal ends during the run");
+    st.class_if(mismatch, "stock graph: pass node with a different channel count than its input");
+    st.class_if(up.iter().any(|u| !*u), "stock graph: a node outside the upstream set keeps its buffers");
+    Ok(())
+}
+
+pub fn stock_strategy() -> impl Strategy<Value = StockCase> {
+    (proptest::collection::vec((0usize..=3, prop_oneof![2 => Just(None), 1 => (0usize..200).prop_map(Some)]), 1..5), 1usize..6, 1usize..=4, any::<bool>(), any::<u32>()).prop_flat_map(|(sources, n_inner, calls, stable, salt)| {
+        let ns = sources.len();
+        let inner: Vec<_> = (0..n_inner).map(|k| (0u8..3, 0usize..=3, proptest::collection::vec(0..(ns + k), 0..4))).collect();
+        (Just(sources), inner, Just(calls), Just(stable), Just(salt)).prop_map(|(sources, mut nodes, calls, stable, salt)| {
+            for n in nodes.iter_mut() {
+                if n.0 % 3 == 2 {
+                    n.2.truncate(1); // Pass: a single input
+                }
+            }
+            StockCase { sources, nodes, calls, stable, salt: salt % 1000 }
+        })
+    })
+}
+
 pub fn case_strategy(max_n: usize) -> impl Strategy<Value = Case> {
     (1usize..=max_n, any::<bool>()).prop_flat_map(|(n, stable)| {
         let e = proptest::collection::vec((0..n, 0..n), 0..(3 * n + 2));
@@ -366,7 +571,7 @@ pub fn run(ctx: &mut Ctx) {
     ctx.set_rule(
         "cases are (container Graph | StableGraph, node count, multiset of directed edges incl. self-loops and parallel edges, StableGraph: nodes removed after construction / nodes added afterwards (slot reuse) / late edges, \
          sequence of output nodes for consecutive process calls on one processor, processor capacity, optionally a node that panics (caught) during a call made before the checked ones); enumerated: every multigraph on up to 3 nodes with multiplicity 0..2 on each of the n^2 ordered pairs x every output node, \
-         every digraph with self-loops on 4 nodes x every output node (thorough: 5 nodes without self-loops), every single-node removal of every 3-node stable multigraph; random: up to 14 nodes, and mixers with 17..=80 incoming edges from up to 39 sources on a processor created with capacity 0..=5; \
+         every digraph with self-loops on 4 nodes x every output node (thorough: 5 nodes without self-loops), every single-node removal of every 3-node stable multigraph; random: up to 14 nodes; loop-free graphs of the library's own Sum / SumBuffers / Pass nodes fed by closure nodes and finite signal nodes with 0..=3 buffers each, evaluated by an independent reference over 1..=4 calls; and mixers with 17..=80 incoming edges from up to 39 sources on a processor created with capacity 0..=5; \
          non-trivial: cycle, self-loop, parallel edge, a node not reaching the output, a diamond, or a vacant slot",
     );
     ctx.assume("nodes are instrumented (identity, input buffer pointers, own buffer pointer per invocation); expected set = reverse reachability over the harness's own edge list; the order of a node's inputs is unspecified and not asserted; values are small integers so that evaluation order cannot matter");
@@ -457,4 +662,9 @@ pub fn run(ctx: &mut Ctx) {
         Case { stable, n, edges, removed: vec![], added: 0, late_edges: vec![], outputs: vec![n - 1, n - 1], proc_capacity, bufs, panic_label: None }
     });
     ctx.prop("wide-fan-in", ctx.pick(2_000, 20_000), wide, check);
+    // (d) loop-free graphs of the library's own nodes: buffers == functional evaluation, over several calls
+    for c in ["graph of stock nodes", "stock graph: a signal node's signal ends during the run", "stock graph: pass node with a different channel count than its input", "stock graph: a node outside the upstream set keeps its buffers"] {
+        ctx.require_class(c);
+    }
+    ctx.prop("stock-node-graphs", ctx.pick(20_000, 200_000), stock_strategy(), check_stock);
 }
